@@ -23,7 +23,7 @@ use serde_json::{json, Value};
 use simcore::{CheckSpec, Engine, Known, RunOutcome, Tape, Tier, Violation};
 
 use entries::ENTRIES;
-use supervisor::{isolated, Reply, Worker, WATCHDOG};
+use supervisor::{isolated, isolated_bare, Reply, Worker, WATCHDOG};
 use worker::worker_main;
 
 simcore::install_getrandom_seam!();
@@ -269,7 +269,33 @@ impl Engine for CrashEngine {
             }
         };
         if w.canaries_not_ok > 0 {
-            out.harness_error = Some(format!("{} canary inputs are not accepted by their entry point (run `crashsim selftest`)", w.canaries_not_ok));
+            // A well-formed canary input was refused at worker start-up, after other well-formed
+            // inputs had been processed. Alone in a bare process it tells the two causes apart: still
+            // refused = a bad seed (harness error); accepted = earlier calls changed its outcome.
+            let names = w.canaries_not_ok_names.clone();
+            w.kill();
+            for name in &names {
+                let Some(entry) = entries::entry_index(name) else { continue };
+                let input = seeds::embedded(name).into_iter().next().unwrap_or_default();
+                match isolated_bare(entry as u32, &input) {
+                    Ok(Reply::Outcome { class, .. }) if class == "ok" => {
+                        let signature = format!("crash/history-dependence.{name}");
+                        if known.is_known(PROP, &signature).is_some() {
+                            out.known_hits.push(format!("{PROP}:{signature}"));
+                            continue;
+                        }
+                        let dd = Delivery { entry, seed: 0, kinds: vec![], bytes: input.clone() };
+                        out.violation = Some(Violation {
+                            property: PROP.into(),
+                            signature,
+                            detail: detail(c, &dd, 0, "history-dependence", "a well-formed input is accepted as the first call of a process but refused after the other entry points' well-formed canary inputs were processed", json!({"refused_at_worker_start": true})),
+                        });
+                        return out;
+                    }
+                    _ => {}
+                }
+            }
+            out.harness_error = Some(format!("{} canary inputs are not accepted by their entry point (run `crashsim selftest`): {names:?}", names.len()));
             return out;
         }
         if w.canaries_unstable > 0 {
@@ -448,7 +474,7 @@ impl Engine for CrashEngine {
                 let (entry, bytes, class, digest, at) = seen[t.index(seen.len())].clone();
                 let name = ENTRIES[entry].name;
                 out.bump("replay.fresh-process");
-                match isolated(entry as u32, &bytes) {
+                match isolated_bare(entry as u32, &bytes) {
                     Ok(Reply::Outcome { class: c2, digest: d2, .. }) => {
                         if c2 != class || d2 != digest {
                             let signature = format!("crash/history-dependence.{name}");
